@@ -367,7 +367,7 @@ def choose(metas, select):
         for m in metas[::stride]:
             if m["n"] not in chosen:
                 chosen.append(m["n"])
-    return sorted(chosen)[: select.get("max", 1000)]
+    return sorted(chosen[: select.get("max", 1000)])
 
 
 def job_snapshots(work, kwargs, job, timeout):
@@ -399,7 +399,7 @@ def job_chain(work, kwargs, job, timeout):
     shutil.rmtree(root, ignore_errors=True)
     shutil.rmtree(snapdir, ignore_errors=True)
     os.makedirs(snapdir)
-    out = {"id": job["id"], "kind": "chain", "procs": []}
+    out = {"id": job["id"], "kind": "chain", "job": job, "procs": []}
     kills = list(job["kills"]) + [None]
     for i, k in enumerate(kills):
         logpath = os.path.join(work, f"log_{i}.jsonl")
